@@ -358,4 +358,112 @@ Section EndToEndOneseg.
     - f_equal. f_equal. f_equal. destruct el'; cbn in *. subst. reflexivity.
     - exact (FILE Hsmall).
   Qed.
+
+  Lemma abort_sticky_plan p : forall s, os_abort s = true -> exec_plan s p = s.
+  Proof.
+    induction p as [|w t IH]; intros s H; cbn [exec_plan fold_left]; [reflexivity|].
+    assert (E : exec_write s w = s).
+    { unfold exec_write, adjust_stream_size. rewrite H. unfold write. rewrite H, orb_true_r. reflexivity. }
+    rewrite E. now apply IH.
+  Qed.
+
+  (* ... and on a sink that accepts k bytes *)
+  Theorem save_oneseg_capped el h0 g bound ms k :
+    let idxs := g_sections g in
+    let align := if 0 <? p_align g then p_align g else 1 in
+    let secs := el_secs el in
+    let pos0 := e_ehsize h0 + e_phentsize h0 in
+    el_hdr el = Some h0 -> el_segs el = [g] -> lenN secs < 2 ^ 16 ->
+    lenN idxs < 2 ^ 16 -> idxs <> [] -> g_offset_set g = false -> p_type g <> PT_PHDR -> NoDup idxs ->
+    Forall2 (fun i s => nth_optN secs i = Some s) idxs ms ->
+    Forall auto_member ms -> Forall (fun s => sh_addralign s <= p_align g) ms ->
+    bound <= 2 ^ 63 -> Forall (fun s => bound <= 2 ^ xw (s_cls s)) secs -> bound <= 2 ^ xw (g_cls g) ->
+    bound <= 2 ^ xw (e_cls h0) -> p_align g < 2 ^ 63 ->
+    p_vaddr g + pos0 + align + mbudget ms + budget secs + 16 + e_shentsize h0 * lenN secs < bound ->
+    indexed_from 0 secs ->
+    (forall s, In s secs -> s_index s = 0 -> csize s = 0) ->
+    lenN (e_ident h0) = 16 -> e_ehsize h0 = ehdr_size (e_cls h0) ->
+    (forall s, In s secs -> shdr_size (s_cls s) <= e_shentsize h0) ->
+    phdr_size (g_cls g) <= e_phentsize h0 -> g_index g = 0 ->
+    el_xlat el = [] -> el_compr el = false -> Forall writable secs -> g_loaded g = true ->
+    exists el' h' g',
+      layout el = Ok (el', true) /\ el_hdr el' = Some h' /\ el_segs el' = [g'] /\
+      let plan := oneseg_plan h' (el_secs el') (segments_plan (e_enc h') h' [g']) in
+      (plan_small 0 plan ->
+       let full := exec_plan (new_ostream None) plan in
+       (os_len full <= k ->
+          exists os, save junk el (new_ostream (Some k)) = Ok (el', os, true) /\ os_bytes os = os_bytes full) /\
+       (k < os_len full ->
+          forall el2 os, save junk el (new_ostream (Some k)) <> Ok (el2, os, true))).
+  Proof.
+    cbv zeta. intros Hh Hs Hnsec Hlen Hne Hos Hty Hnd HF Hauto Hdom Hb63 Hcls Hbg Hbh Hal Hbud Hidx Hnull Hident Heh Hes Hph Hgi Hx Hcm W Hgl.
+    assert (Hdata : forall s b, In s (el_secs el) -> s_data s = Some b -> sh_size s <= lenN b).
+    { intros s b Hin Hd. rewrite Forall_forall in W. destruct (W s Hin) as (_ & _ & D). now apply D. }
+    destruct (oneseg_saved_file el h0 g bound ms Hh Hs Hnsec Hlen Hne Hos Hty Hnd HF Hauto Hdom Hb63 Hcls Hbg Hbh Hal Hbud Hidx
+                Hnull Hdata Hident Heh Hes Hph Hgi)
+      as (el' & h' & g' & ss & pos1 & pos2 & L & Eh & Eg & RL & Hpo & Hpn & Hsn & Hso & _ & _ & _ & _ & _ & _ & _ & _ & _ & _).
+    exists el', h', g'. split; [exact L|]. split; [exact Eh|]. split; [exact Eg|]. intros Hsmall.
+    destruct (layout_keeps_env _ _ _ L) as (X1 & X2 & X3).
+    assert (Q0 : Forall quiet (el_secs el)).
+    { eapply Forall_impl; [|exact W]. intros s (_ & Q & _). exact Q. }
+    assert (W1 : Forall writable (el_secs el')).
+    { clear - RL W junk. induction RL as [|s s' t t' Hk HK IH]; [constructor|]. inversion W; subst.
+      constructor; [eapply relaid_writable; eauto|auto]. }
+    assert (Hso63 : e_shoff h' < 2 ^ 63).
+    { rewrite Hso. set (align := if 0 <? p_align g then p_align g else 1) in *.
+      destruct (layout_oneseg el h0 g bound ms Hh Hs Hnsec Hlen Hne Hos Hty Hnd HF Hauto Hdom ltac:(lia) Hcls Hbg Hal)
+        as (el2 & g2 & secs2 & ss2 & p1 & p2 & L2 & Eh2 & _ & _ & _ & _ & _ & _ & T2 & _ & _ & _ & _ & _ & _ & _ & _ & _ & _ & _ & B1 & B2).
+      { fold align. clearbody align. clear - Hbud. lia. }
+      rewrite L in L2. injection L2 as <-. rewrite Eh in Eh2. injection Eh2 as Eh2.
+      assert (E : e_shoff h' = wrap (xw (e_cls h0)) (p2 + (16 - p2 mod 16))) by (rewrite Eh2; destruct h0; reflexivity).
+      rewrite <- Hso, E. unfold wrap. eapply N.le_lt_trans; [apply N.mod_le; apply N.pow_nonzero; lia|].
+      fold align in T2. clearbody align. clear - T2 B1 B2 Hbud Hb63. lia. }
+    set (segplan := segments_plan (e_enc h') h' [g']) in *.
+    set (plan := oneseg_plan h' (el_secs el') segplan) in *.
+    set (sc := new_ostream (Some k)). set (su := new_ostream None).
+    destruct new_ostream_ok as [Ok0 G0].
+    assert (HNH : plan_no_huge su plan) by (apply plan_small_no_huge; assumption).
+    assert (HS0 : in_step k sc su) by (unfold in_step, sc, su, new_ostream; cbn; repeat split; lia).
+    destruct (exec_plan_sim k plan sc su HS0 HNH) as [SIM OVF].
+    set (w0 := (0, ehdr_bytes h')).
+    set (plan_s := flat_map (sec_writes (e_enc h') (e_shoff h') (e_shentsize h')) (el_secs el')).
+    set (os2 := exec_plan (exec_write sc w0) plan_s).
+    assert (Eplan : exec_plan os2 segplan = exec_plan sc plan).
+    { unfold os2. change (exec_plan (exec_write sc w0) plan_s) with (exec_plan sc (w0 :: plan_s)). rewrite exec_plan_app. reflexivity. }
+    assert (SV : save junk el sc =
+                 (if negb (negb (os_bad (exec_write sc w0))) then Ok (el', exec_write sc w0, false)
+                  else if os_abort os2 then Fault Abort
+                  else if os_bad os2 then Ok (el', os2, false)
+                  else if os_abort (exec_plan sc plan) then Fault Abort
+                  else Ok (el', exec_plan sc plan, negb (os_bad (exec_plan sc plan))))).
+    { unfold save. change (os_bad sc) with false. cbn iota. rewrite Hh.
+      rewrite (force_sections_quiet junk _ _ _ [] Q0). cbn [bind rev_append].
+      rewrite Hs. cbn [force_segments]. unfold seg_get_data at 1. rewrite Hgl. cbn [bind rev_append].
+      rewrite <- Hs, with_parts_id, L. cbn [bind negb]. rewrite Eh.
+      rewrite X1, Hx. unfold sc. rewrite save_header_new. fold sc. fold w0.
+      destruct (os_bad (exec_write sc w0)); cbn [negb]; [reflexivity|].
+      rewrite X2, Hcm.
+      rewrite (sections_plan_writable junk (e_enc h') h' [] (el_stream el') (el_secs el') [] [] Hso63 W1). cbn [bind rev_append app].
+      fold plan_s. fold os2. rewrite Eg. fold segplan. rewrite Eplan.
+      assert (Eel : with_stream (with_secs el' (el_secs el')) (el_stream el') = el') by (destruct el'; reflexivity).
+      rewrite Eel. reflexivity. }
+    split.
+    - intros Hfit. destruct (SIM Hfit) as (_ & _ & B1 & _ & A1 & _ & P1 & Ln & _).
+      assert (B0 : os_bad (exec_write sc w0) = false).
+      { destruct (os_bad (exec_write sc w0)) eqn:E; [|reflexivity].
+        pose proof (bad_sticky_plan (plan_s ++ segplan) _ E) as Hbad.
+        rewrite <- exec_plan_app in Hbad. fold os2 in Hbad. rewrite Eplan in Hbad. congruence. }
+      assert (B2 : os_bad os2 = false).
+      { destruct (os_bad os2) eqn:E; [|reflexivity]. pose proof (bad_sticky_plan segplan _ E) as Hbad. rewrite Eplan in Hbad. congruence. }
+      assert (A2 : os_abort os2 = false).
+      { destruct (os_abort os2) eqn:E; [|reflexivity]. pose proof (abort_sticky_plan segplan _ E) as Hid. rewrite Eplan in Hid. congruence. }
+      exists (exec_plan sc plan). rewrite SV, B0, A2, B2, A1, B1. cbn [negb]. split; [reflexivity|].
+      unfold os_bytes. now rewrite P1, Ln.
+    - intros Hover el2 os Habs. destruct (OVF Hover) as (B1 & _).
+      rewrite SV in Habs.
+      destruct (os_bad (exec_write sc w0)); cbn [negb] in Habs; [discriminate|].
+      destruct (os_abort os2); [discriminate|]. destruct (os_bad os2); [discriminate|].
+      destruct (os_abort (exec_plan sc plan)); [discriminate|].
+      rewrite B1 in Habs. discriminate.
+  Qed.
 End EndToEndOneseg.
